@@ -45,6 +45,8 @@ def mutants(V, args):
                 t = subprocess.run("cd %s && go build ./... && go test -vet=off -count=1 ./... 2>&1 | tail -5" % scratch, shell=True, env=V.ENV, capture_output=True, text=True)
                 tests = "pass" if "FAIL" not in t.stdout and t.returncode == 0 else "FAIL"
             verdicts = {}
+            if os.environ.get("MUTANT_PRIMARY_ONLY"):
+                props = props[:1]
             for prop in props:
                 env = dict(os.environ, VERIF_REPO=scratch)
                 t0 = time.time()
